@@ -64,7 +64,9 @@ ASSUMPTIONS = ['all packets of a case arrive in one read batch (<= 40)']
 IN_FILTERS = ['Packet', 'AbstractKA', 'CbKA', 'Chat', 'PosLook',
               'LoginSuccess', 'LoginSetCompression', 'PluginRequest',
               'PlayDisconnect', 'CombatEvent', 'DeathCombat', 'Map', 'SbKA',
-              'PluginMessage', 'PlaySetCompression', 'LoginDisconnect']
+              'PluginMessage', 'PlaySetCompression', 'LoginDisconnect',
+              'MultiBlockChangePacket', 'ExplosionPacket',
+              'PlayerListItemPacket']
 OUT_FILTERS = ['Packet', 'AbstractKA', 'SbKA', 'HandShake', 'LoginStart',
                'PluginResponse', 'TeleportConfirm', 'SbPosLook', 'SbChat',
                'CbKA', 'Map']
@@ -94,10 +96,22 @@ KIND_MATCH = {
 }
 
 
+ZERO_NAMES = ['MultiBlockChangePacket', 'ExplosionPacket',
+              'BlockChangePacket', 'TimeUpdatePacket',
+              'EntityVelocityPacket', 'PlayerListItemPacket']
+
+
 def filter_classes():
     from minecraft.networking import packets
     from minecraft.networking.packets import clientbound as cb, \
         serverbound as sb
+    d = _filter_classes(packets, cb, sb)
+    for n in ZERO_NAMES:
+        d[n] = getattr(cb.play, n)
+    return d
+
+
+def _filter_classes(packets, cb, sb):
     return {
         'Packet': packets.Packet,
         'AbstractKA': packets.AbstractKeepAlivePacket,
@@ -164,6 +178,14 @@ def dispatch_case(ctx, case):
     ctx.ev()
     F = filter_classes()
     history = [tuple(h) for h in case['history']]
+    # ('zero:<Class>',): the all-zero instance of a library packet (empty
+    # record arrays, zero numbers) - dropped where the class is not
+    # registered at this version
+    from props import c01_framing as P1
+    history = [h for h in history if not h[0].startswith('zero:') or
+               P1._hand_frame(version, h[0][5:]) is not None]
+    if any(h[0].startswith('zero:') for h in history):
+        ctx.label('dispatch_zero_valued_packet')
     Ls = [dict(l) for l in case['listeners']]
     for l in Ls:
         l['ignore'] = set(l.get('ignore') or ())
@@ -206,7 +228,9 @@ def dispatch_case(ctx, case):
         return si < i < last
 
     def matches(l, kind):
-        return any(t in KIND_MATCH[kind] for t in l['types'])
+        km = KIND_MATCH[kind] if kind in KIND_MATCH else \
+            {'Packet', kind[5:]}                # 'zero:<class name>'
+        return any(t in km for t in l['types'])
 
     # ---- model of incoming dispatch
     ie = [l for l in allL if l['cls'] == 'ie']
@@ -274,6 +298,8 @@ def dispatch_case(ctx, case):
             play.append(('chat', v))
         elif h[0] == 'unknown':
             play.append(('raw', 0x7B, h[1]))
+        elif h[0].startswith('zero:'):
+            play.append(('raw',) + tuple(P1._hand_frame(version, h[0][5:])))
         elif h[0] == 'death':
             play.append(('raw', 0x35, wire.varint(7) + wire.sint(-3, 32) +
                          wire.string('died')))
@@ -323,7 +349,9 @@ def dispatch_case(ctx, case):
                 if l['write'] and writes_at(idx):
                     mode, text = l['write'][0], l['write'][1]
                     conn.write_packet(sb.play.ChatPacket(message=text),
-                                      force=(mode == 'forced'))
+                                      force=(1 if l['id'] % 2 else True)
+                                      if mode == 'forced' else
+                                      (0 if l['id'] % 2 else False))
                 if idx in l['ignore']:
                     raise IgnorePacket
             return fn
@@ -342,13 +370,21 @@ def dispatch_case(ctx, case):
                 fns[l['gid']] = _as_callable(make(by_gid[l['gid']]), ckind)
             fn_l = fns[l['gid']]
             kw = {}
+            # flags are used for their truth: True and 1 (False, 0 and None)
+            # are the same request
+            odd = l['id'] % 2
             if l['cls'][1] == 'e':
-                kw['early'] = True
+                kw['early'] = 1 if odd else True
+            elif l['id'] % 3 == 0:
+                kw['early'] = 0 if odd else None
             if l['cls'][0] == 'o':
-                kw['outgoing'] = True
+                kw['outgoing'] = True if odd else 1
+            elif l['id'] % 3 == 1:
+                kw['outgoing'] = 0
             if case.get('decorator') == 'shared' and l['id'] >= 2:
                 # one decorator object applied to several handlers
-                key = (tuple(l['types']), tuple(sorted(kw)))
+                key = (tuple(l['types']), tuple(sorted(
+                    k_ for k_, v_ in kw.items() if v_)))
                 if key not in shared_deco:
                     shared_deco[key] = conn.listener(*types, **kw)
                 else:
@@ -743,6 +779,8 @@ def history_strategy(version):
     if version == 757:
         play_items.append(st.tuples(st.just('death')))
     play_items.append(st.tuples(st.just('plugin_msg'), st.binary(max_size=8)))
+    play_items.append(st.sampled_from(ZERO_NAMES).map(
+        lambda n: ('zero:' + n,)))
     if version == 47:
         play_items.append(st.tuples(st.just('play_compress'),
                                     st.sampled_from([0, 64])))
@@ -821,7 +859,8 @@ def t_fixed(ctx):
         hist = [('compress', 64), ('success',), ('ka', 1), ('pos', 5),
                 ('unknown', b'zz'), ('ka', 2), ('chat', '{"text":"a"}')]
         hist = hist + [('unknown', b'q'), ('plugin_msg', b'xy'),
-                       ('unknown', b'')]
+                       ('unknown', b'')] + [('zero:' + n,)
+                                            for n in ZERO_NAMES[:3]]
         if v == 47:
             k = hist.index(('success',)) + 1
             hist = hist[:k] + [('play_compress', 0)] + hist[k:]
@@ -840,7 +879,8 @@ def t_fixed(ctx):
              'write': ('forced', 'f')},
             {'cls': 'oo', 'types': ['AbstractKA', 'SbChat'], 'ignore': [],
              'write': None},
-            {'cls': 'io', 'types': ['PluginMessage'], 'ignore': [],
+            {'cls': 'io', 'types': ['PluginMessage',
+                                    'MultiBlockChangePacket'], 'ignore': [],
              'write': None},
             {'cls': 'ie', 'types': ['PlaySetCompression'], 'ignore': [],
              'write': None},
